@@ -156,9 +156,10 @@ def c15_1(ctx: Ctx) -> RuleResult:
                     res.add(g, c, "the start-of-evaluation signal precedes the evaluation on every path", p1 is None,
                             "" if p1 is None else "evaluation without START_EVALUATION", [] if p1 is None else describe_path(g, p1),
                             construct=f"{g.name}: signal() before calculate")
-                    p2 = pf.find_path(n, lambda m: m is cfg.exit, blocked=lambda m: m in sig_done,
+                    # leaving through a `raise` statement of the driver itself (e.g. TOO_FEW_REALIZATIONS) is a designed exit as well
+                    p2 = pf.find_path(n, lambda m: m is cfg.exit or (m.kind == "stmt" and isinstance(m.ast, ast.Raise)), blocked=lambda m: m in sig_done,
                                       edge_ok=lambda a, b, lab, n=n: skip_false(a, b, lab) and not (a is n and lab == "exc"))
-                    res.add(g, c, "the results signal follows the evaluation on every normal path", p2 is None,
+                    res.add(g, c, "the results signal follows the evaluation on every normal path and before every raise of the driver", p2 is None,
                             "" if p2 is None else "evaluation results may never be signalled", [] if p2 is None else describe_path(g, p2),
                             construct=f"{g.name}: signal(results) after calculate")
     # the signal function (the callable a step hands to the optimizer as `signal_evaluation=`) maps
@@ -298,6 +299,30 @@ def c15_2(ctx: Ctx) -> RuleResult:
         ok = pol is not None and pol == want_none
         res.add(f, call, f"the {what} are called iff the plan has {'no ' if want_none else 'a '}parent", ok,
                 "" if ok else f"the {what} call is not controlled by the parent test with the right polarity", construct=f"emit_event: {what} polarity")
+    # (e) the parent link is the plan that runs this one *now*: stores of the link outside the constructor
+    #     take the argument unconditionally (a link kept from an earlier run delivers to the wrong ancestors)
+    pt = X.at(f, pc)
+    link = pt[1][1] if pt[0] == "call" and pt[1][0] == "attr" else None
+    if link is not None and link[0] == "attr" and link[1][0] == "param":
+        fld = link[2]
+        n_st = 0
+        for m_ in ctx.repo.cls(PLAN).methods.values():
+            if m_.name == "__init__" or not m_.positional:
+                continue
+            for n_ in nodes_in(m_, (ast.Assign, ast.AnnAssign)):
+                tg = n_.targets if isinstance(n_, ast.Assign) else [n_.target]
+                if not any(isinstance(t_, ast.Attribute) and t_.attr == fld and isinstance(t_.value, ast.Name) and t_.value.id == m_.positional[0] for t_ in tg) or n_.value is None:
+                    continue
+                n_st += 1
+                v_ = X.at(m_, n_.value)
+                cond = path_condition(ctx, m_, n_)
+                ok = v_[0] == "param" and not cond
+                res.add(m_, n_, f"the parent link `{fld}` is set to the given plan unconditionally", ok,
+                        "" if ok else (f"`{fld}` is only set under a condition: a plan reused by another parent keeps the old link and its events reach the wrong ancestors" if cond
+                                       else f"`{fld}` is set to `{show(v_, 60)}`"),
+                        construct=f"{m_.name}: parent link")
+        res.add(f, pc, "the parent link can be set after construction (nested plans are attached by their runner)", n_st >= 1,
+                "" if n_st else "no method sets the parent link", construct="emit_event: parent link setter")
     # the forwarded event is the received event
     for call, what in ((oc, "observers"), (pc, "parent")):
         t = X.at(f, call)
@@ -470,6 +495,49 @@ def c15_4(ctx: Ctx) -> RuleResult:
             res.add(run, call, "an abort raised by an observer/handler during this call is converted into the step's exit code", ok,
                     "" if ok else f"an abort raised by an observer/handler at {what} escapes {cname}.run as an exception: no USER_ABORT exit code, plan not latched", wit,
                     construct=f"{cname}: {what}")
+    # the converting handlers make the abort's exit code the step's result, whatever the step had decided before
+    for run in step_run_methods(ctx):
+        cname = run.cls.name if run.cls else run.name
+        # names whose value flows into the value the step returns (through copies and inlined helpers)
+        ret_names = {x.id for r_ in nodes_in(run, ast.Return) if r_.value is not None for x in ast.walk(r_.value) if isinstance(x, ast.Name)}
+        changed = True
+        while changed:
+            changed = False
+            for n_ in nodes_in(run, (ast.Assign, ast.AnnAssign)):
+                if n_.value is None:
+                    continue
+                tg = n_.targets if isinstance(n_, ast.Assign) else [n_.target]
+                if any(isinstance(t_, ast.Name) and t_.id in ret_names for t_ in tg):
+                    for x in ast.walk(n_.value):
+                        if isinstance(x, ast.Name) and x.id not in ret_names:
+                            ret_names.add(x.id)
+                            changed = True
+        seen_h = set()
+        for call, _t in emit_sites(ctx, run):
+            h = catching_handler(ctx.repo, run, call, ABORT)
+            if not isinstance(h, ast.ExceptHandler) or id(h) in seen_h:
+                continue
+            seen_h.add(id(h))
+            if h.name is None:
+                ok = any(isinstance(s_, ast.Return) for s_ in h.body)
+                res.add(run, h, "the handler of an abort makes the abort's exit code the result of the step", ok,
+                        "" if ok else "the handler does not bind the exception: its exit code cannot become the step's result", construct=f"{cname}: abort handler L{h.lineno} result")
+                continue
+
+            def takes_code(v):
+                return v is not None and any(isinstance(x, ast.Attribute) and isinstance(x.value, ast.Name) and x.value.id == h.name for x in ast.walk(v))
+
+            ok = False
+            for s_ in h.body:
+                if isinstance(s_, ast.Return) and takes_code(s_.value):
+                    ok = True
+                if isinstance(s_, (ast.Assign, ast.AnnAssign)) and takes_code(s_.value):
+                    tg = s_.targets if isinstance(s_, ast.Assign) else [s_.target]
+                    if any(isinstance(t_, ast.Name) and t_.id in ret_names for t_ in tg):
+                        ok = True
+            res.add(run, h, "the handler of an abort makes the abort's exit code the result of the step unconditionally", ok,
+                    "" if ok else "the abort's exit code replaces the step's result only under a condition (or not at all): a user abort can be reported as another exit code and the plan is not latched",
+                    construct=f"{cname}: abort handler L{h.lineno - run.node.lineno} result")
     # an abort in flight must not be replaced by a raise/return in a finally clause
     from .c14 import c14_6
 
